@@ -55,8 +55,8 @@ theorem map_filter_eq_filterMap {α β : Type} (p : α → Bool) (g : α → β)
   | nil => rfl
   | cons a l ih =>
     by_cases h : p a = true
-    · simp [List.filter_cons, h, ih]
-    · simp [List.filter_cons, h, ih]
+    · simp [h, ih]
+    · simp [h, ih]
 
 /-- the entry of event `a` in `putItems · r` -/
 def putEntry (s : KState ℚ σ) (r : ResId) (a : EvId) : Option Int :=
